@@ -80,7 +80,7 @@ func init() {
 		ID:    "C09",
 		Level: "exploration",
 		Rule: "phase 0 (exhaustive): every sequence of up to L building operations (L=3 quick, L=5 thorough) over the 13-operation alphabet {AddHeaders(0|1|2 items), AddRowItems(0|1|3), AddSeparator, AppendNewRow, Add on the last row handle, AddRow(prebuilt 0|2 cells), Add on AllRows()[last] (possibly a separator), AddRow(NewRowSizedFor+1)} crossed with 6 item flavours (plain, multi-line, declared size below/above actual, unicode/invalid, empty/nil/rune); " +
-			"phase 1 (exhaustive): all sequences of length L+1 for the flavour whose items declare less than they have (and, in quick, the plain flavour); phase 2: random sequences of up to 40 operations with items from the whole item zoo. Every resulting table is rendered through csv/html/json/markdown wrappers, a text wrapper under every registered decoration (the six built-ins plus one complete and seven partially filled, never Populate()d decorations registered by the check), and (for every 8th sequence of the exhaustive phases and all random ones) auto.Render for every listed style, under a panic guard. " +
+			"phase 1 (exhaustive): all sequences of length L+1 for the flavour whose items declare less than they have (and, in quick, the plain flavour); phase 2: random sequences of up to 40 operations with items from the whole item zoo. Every resulting table is rendered through csv/html/json/markdown wrappers, a text wrapper under every registered decoration (the six built-ins plus one complete and seven partially filled, never Populate()d decorations registered by the check), and (for every 8th sequence of the exhaustive phases and all random ones) auto.Render for every listed style, under a panic guard; all routes render the same table object one after the other in an order that varies from case to case. " +
 			"Distinct = distinct (sequence, flavour) pairs; non-trivial = the table has at least one row or header.",
 		Assumptions: []string{
 			"tables are built through the public building API only (custom Table implementations that misreport NColumns are outside the statement)",
@@ -190,7 +190,7 @@ func c09Exh(c *Ctx, seqIdx, flavour int) {
 	if c.Rec.WantSample() && len(seq) >= 3 {
 		c.Rec.Sample(desc)
 	}
-	c09RenderAll(c, b.t, desc, seqIdx%8 == 0)
+	c09RenderAll(c, b.t, desc, seqIdx%8 == 0, uint64(seqIdx)*7+uint64(flavour))
 }
 
 func c09Random(c *Ctx, i int, r *gen.R) {
@@ -219,7 +219,7 @@ func c09Random(c *Ctx, i int, r *gen.R) {
 	}
 	desc["items"] = specs
 	c.Rec.Eval(gen.Hash64(fmt.Sprint(seq), fmt.Sprint(len(specs))), true)
-	c09RenderAll(c, b.t, desc, true)
+	c09RenderAll(c, b.t, desc, true, r.Uint64())
 }
 
 var c09RegisterOnce sync.Once
@@ -246,12 +246,25 @@ func c09RegisterDecorations() {
 	})
 }
 
-func c09RenderAll(c *Ctx, t tabular.Table, desc map[string]interface{}, withAuto bool) {
+func c09RenderAll(c *Ctx, t tabular.Table, desc map[string]interface{}, withAuto bool, order uint64) {
 	c09RegisterDecorations()
 	routes := DirectRoutes()
 	if withAuto {
 		routes = append(routes, AutoRoutes()...)
 	}
+	// all routes render the SAME table one after the other: the order is varied from case to case
+	// (a render may leave state on the table which only a particular later render trips over)
+	x := order*6364136223846793005 + 1442695040888963407
+	for k := len(routes) - 1; k > 0; k-- {
+		x = x*6364136223846793005 + 1442695040888963407
+		j := int((x >> 33) % uint64(k+1))
+		routes[k], routes[j] = routes[j], routes[k]
+	}
+	names := make([]string, len(routes))
+	for k := range routes {
+		names[k] = routes[k].Name
+	}
+	desc["render_order"] = names
 	for _, rt := range routes {
 		var s string
 		var err error
